@@ -252,9 +252,9 @@ func firstDiff(a, b []prow) map[string]interface{} {
 func runStages(g *hc.Gen, o *hc.Out, scratch string, round int, quick bool) {
 	// large enough that a worker is still inside its chunk when the next one starts (a schedule-dependent defect of a
 	// stage shows only then), small enough to be loaded 12 times
-	n := int64(30000 + g.Intn(30000))
+	n := int64(20000 + g.Intn(20000))
 	if !quick {
-		n = int64(120000 + g.Intn(80000))
+		n = int64(60000 + g.Intn(60000))
 	}
 	m := int64(g.Intn(40) + 7)
 	a := int64(g.Intn(1000) + 1)
